@@ -19,7 +19,7 @@ def _mut_ty(ty):
 def fn_effect_sites(facts, fn):
     """[(bb, adt, field, how)] for fn's own body (closures folded in at their creation site)"""
     fn_effects(facts, fn)
-    return _sites.get((id(facts), fn.path), [])
+    return _sites.get((id(facts), fn.path, id(fn) if hasattr(fn, 'inlined') else 0), [])
 
 
 _sites = {}
@@ -27,7 +27,7 @@ _sites = {}
 
 def fn_effects(facts, fn):
     """set of (adt, field, how) for fn itself including the closures it creates (transitively)"""
-    key = (id(facts), fn.path)
+    key = (id(facts), fn.path, id(fn) if hasattr(fn, 'inlined') else 0)
     if key in _cache:
         return _cache[key]
     _cache[key] = set()      # recursion guard
